@@ -65,7 +65,7 @@ def gen_cells(rng, ndim, aniso=True):
     return cell
 
 
-def gen_mesh(rng, ndim, nmin=1, nmax=6, max_cells=40, names=None, cube=False):
+def gen_mesh(rng, ndim, nmin=1, nmax=6, max_cells=40, names=None, cube=False, bc_prob=0.0):
     n = [rng.randint(nmin, nmax) for _ in range(ndim)]
     while int(np.prod(n)) > max_cells and any(x > nmin for x in n):
         k = rng.randrange(ndim)
@@ -76,15 +76,20 @@ def gen_mesh(rng, ndim, nmin=1, nmax=6, max_cells=40, names=None, cube=False):
     pmin = [Fraction(rng.randint(-40, 40), 2 ** rng.randint(0, 2)) for _ in range(ndim)]
     pmax = [a + k * c for a, k, c in zip(pmin, n, cell)]
     dims = rng.choice(names) if names else None
-    return dict(p1=[float(x) for x in pmin], p2=[float(x) for x in pmax], n=n, dims=dims, bc="")
+    bc = ""
+    if bc_prob and rng.random() < bc_prob:
+        dd = dims or ["x", "y", "z"][:ndim]
+        bc = "".join(d for d in dd if rng.random() < 0.6)
+    return dict(p1=[float(x) for x in pmin], p2=[float(x) for x in pmax], n=n, dims=dims, bc=bc)
 
 
 def cases(rng, tier):
     big = tier != "quick"
     # --- topological charge density / charge, both methods
-    for k in range(70 if not big else 700):
+    for k in range(120 if not big else 900):
         tex = ["random", "random", "ratsphere", "uniform", "skyrmion", "zeros", "random"][k % 7]
-        spec = gen_mesh(rng, 2, nmin=1 if k % 5 == 0 else 2, nmax=6 if not big else 9, max_cells=36 if not big else 81, names=NAMES2)
+        spec = gen_mesh(rng, 2, nmin=1 if k % 5 == 0 else 2, nmax=6 if not big else 9, max_cells=36 if not big else 81, names=NAMES2,
+                        bc_prob=0.25)
         yield dict(kind="tcd", mesh=spec, tex=tex, density=rng.choice([1.0, 1.0, 0.9, 0.75, 0.5]), via_sel=(k % 3 == 0), sub=rng.getrandbits(32))
     # --- integer Berg-Luescher charge
     for k in range(6 if not big else 40):
@@ -92,12 +97,13 @@ def cases(rng, tier):
         yield dict(kind="blint", n=[n, n + rng.choice([0, 2])], wind=rng.choice([1, 1, 2]), pol=rng.choice([1, -1]),
                    cell=[float(c) for c in gen_cells(rng, 2)], sub=rng.getrandbits(32))
     # --- emergent field
-    for k in range(14 if not big else 150):
-        spec = gen_mesh(rng, 3, nmin=1 if k % 4 == 0 else 2, nmax=4 if not big else 5, max_cells=36 if not big else 100, names=NAMES3)
+    for k in range(24 if not big else 200):
+        spec = gen_mesh(rng, 3, nmin=1 if k % 4 == 0 else 2, nmax=4 if not big else 5, max_cells=36 if not big else 100, names=NAMES3,
+                        bc_prob=0.25)
         yield dict(kind="emergent", mesh=spec, tex=rng.choice(["random", "ratsphere", "uniform"]), density=rng.choice([1.0, 0.9, 0.6]),
                    sub=rng.getrandbits(32))
     # --- neighbouring-cell angles
-    for k in range(45 if not big else 500):
+    for k in range(80 if not big else 600):
         nd = [1, 2, 3, 3, 2][k % 5]
         spec = gen_mesh(rng, nd, nmin=1 if k % 6 == 0 else 2, nmax=5, max_cells=40 if not big else 100,
                         names={1: None, 2: NAMES2, 3: NAMES3}[nd])
@@ -118,11 +124,11 @@ def cases(rng, tier):
         n = [rng.choice([3, 4]) for _ in range(3)]
         yield dict(kind="bps", tex="hedgehog", n=n, cell=[float(c) for c in gen_cells(rng, 3)], rev=bool(k % 2), off=[0.25, -0.125, 0.375],
                    claim=False, model=True, sub=rng.getrandbits(32))
-    for k in range(5 if not big else 40):
-        spec = gen_mesh(rng, 3, nmin=2, nmax=4, max_cells=36, names=NAMES3)
+    for k in range(8 if not big else 50):
+        spec = gen_mesh(rng, 3, nmin=2, nmax=4, max_cells=36, names=NAMES3, bc_prob=0.25)
         yield dict(kind="bps", tex="smooth", mesh=spec, claim=False, model=True, sub=rng.getrandbits(32))
     # --- demag tensor
-    shapes = [(1, 1, 1), (2, 1, 2), (2, 2, 2), (3, 2, 2), (2, 3, 3)] if not big else \
+    shapes = [(1, 1, 1), (2, 1, 2), (2, 2, 2), (3, 2, 2), (2, 3, 3), (1, 3, 2), (3, 3, 3), (4, 2, 3)] if not big else \
         [(1, 1, 1), (2, 1, 2), (2, 2, 2), (3, 2, 2), (2, 3, 3), (3, 3, 3), (4, 2, 3), (4, 4, 4), (1, 3, 2)]
     for k, n in enumerate(shapes):
         for rep in range(1 if not big else 2):
@@ -133,10 +139,10 @@ def cases(rng, tier):
             yield dict(kind="dtensor", n=list(n), cell=[float(x) for x in c], field_based=(int(np.prod(n)) <= (12 if not big else 36)),
                        sub=rng.getrandbits(32))
     # --- demag field
-    for k in range(8 if not big else 60):
+    for k in range(16 if not big else 80):
         n = [rng.randint(1, 3) for _ in range(3)]
         yield dict(kind="dfield", n=n, cell=[float(x) for x in gen_cells(rng, 3)], sub=rng.getrandbits(32))
-    for k in range(5 if not big else 30):
+    for k in range(12 if not big else 40):
         n = [rng.randint(1, 4 if not big else 5) for _ in range(3)]
         cube = k % 2 == 0
         if cube:
@@ -146,7 +152,7 @@ def cases(rng, tier):
             c = [c[0]] * 3
         yield dict(kind="cuboid", n=n, cell=[float(x) for x in c], cube=cube, M=float(rng.choice([1, 2, 0.5, 8e5])), sub=rng.getrandbits(32))
     # --- refusals (malformed stream)
-    for k in range(16 if not big else 100):
+    for k in range(24 if not big else 100):
         yield dict(kind="refuse", ndim=rng.choice([1, 2, 3, 4]), nvdim=rng.choice([1, 2, 3, 4]), sub=rng.getrandbits(32))
 
 
@@ -187,13 +193,12 @@ def texture(rng, tex, mesh):
         ch = [(1, 0, 0), (0, 1, 0), (0, 0, 1), (-1, 0, 0), (0, 0, -1), (1, 1, 0), (0, 3, 4), (2, -1, 2)]
         return np.array([rng.choice(ch) for _ in range(size)], dtype=float).reshape(*n, 3)
     if tex == "skyrmion":
+        # profile in index space (anisotropic cells do not matter), centre off the cell centres
         arr = np.zeros((*n, 3))
-        cen = [(a + b) / 2 for a, b in zip(mesh.region.pmin, mesh.region.pmax)]
-        R = 0.45 * min(mesh.region.edges[:2])
+        R = max(0.45 * min(n[:2]), 1.3)
         pol, wind, hel = rng.choice([1, -1]), rng.choice([1, 1, 2, -1]), rng.random() * 6
         for idx in itertools.product(*[range(x) for x in n]):
-            p = mesh.index2point(idx)
-            x, y = p[0] - cen[0], p[1] - cen[1]
+            x, y = idx[0] - (n[0] - 1) / 2 + 0.13, idx[1] - (n[1] - 1) / 2 - 0.21
             r = math.hypot(x, y)
             th = math.pi * max(0.0, 1 - r / R)
             ph = wind * math.atan2(y, x) + hel
@@ -288,7 +293,7 @@ def build2d(case, rng):
         d2 = spec["dims"] or ["x", "y"]
         d3 = list(d2) + [next(c for c in "zwq" if c not in d2)]
         r = df.Region(p1=spec["p1"] + [0.0], p2=spec["p2"] + [0.5], dims=d3)
-        m3 = df.Mesh(region=r, n=spec["n"] + [1])
+        m3 = df.Mesh(region=r, n=spec["n"] + [1], bc=spec.get("bc", ""))
         arr = texture(rng, case["tex"], m3.sel(d3[2]))
         mask = fieldio.gen_mask(rng, tuple(spec["n"]), case["density"])
         f3 = df.Field(m3, nvdim=3, value=arr.reshape(*spec["n"], 1, 3), valid=mask.reshape(*spec["n"], 1))
@@ -302,6 +307,28 @@ def build2d(case, rng):
 def with_array(f, arr, mesh=None, valid=None):
     return df.Field(mesh or f.mesh, nvdim=3, value=arr, valid=f.valid if valid is None else valid,
                     vdims=f.vdims, vdim_mapping=f.vdim_mapping)
+
+
+def bl_exceptional(f):
+    """does the Berg-Luescher loop meet an exceptional configuration (1+d12+d23+d31 + i t on or next to the
+    non-positive real axis, where the signed area is undefined and the float guard `t == 0` decides)?"""
+    o, v = f.orientation.array, f.valid
+    n0, n1 = o.shape[:2]
+    for i in range(n0):
+        for j in range(n1):
+            if not v[i, j]:
+                continue
+            nb = [(i + 1, j), (i, j + 1), (i - 1, j), (i, j - 1)]
+            vs = [o[a, b] if 0 <= a < n0 and 0 <= b < n1 and v[a, b] else None for a, b in nb]
+            for k in range(4):
+                a, b = vs[k], vs[(k + 1) % 4]
+                if a is None or b is None:
+                    continue
+                re = 1 + np.dot(o[i, j], a) + np.dot(a, b) + np.dot(b, o[i, j])
+                t = np.dot(o[i, j], np.cross(a, b))
+                if re <= 1e-6 and abs(t) <= 1e-9:
+                    return True
+    return False
 
 
 def run_tcd(case, rng, obs, fail):
@@ -329,16 +356,19 @@ def run_tcd(case, rng, obs, fail):
     if not (np.array_equal(snap[0], f.array) and np.array_equal(snap[1], f.valid)):
         fail("topological_charge_density modified its operand")
     generic = case["tex"] in ("random", "ratsphere", "skyrmion", "zeros")
-    # small-denominator sphere points produce exactly coplanar triples (Berg-Luescher's exceptional configurations)
-    generic_bl = case["tex"] in ("random", "skyrmion", "zeros")
+    # exactly coplanar / antiparallel neighbour triples are Berg-Luescher's exceptional configurations
+    generic_bl = generic and not bl_exceptional(f)
+    obs["bl_exceptional"] = bl_exceptional(f)
     nontriv = case["tex"] != "uniform" and max(n) >= 2
     obs["nontrivial"] = nontriv
     obs["tags"] += [f"tex:{case['tex']}", f"masked:{not bool(f.valid.all())}", f"n:{'1' if min(n) == 1 else '>=2'}",
-                    f"aniso:{c0 != c1}", f"dims:{'default' if list(f.mesh.region.dims) == ['x', 'y'] else 'custom'}"]
-    # ---- uniform -> exactly zero
+                    f"aniso:{c0 != c1}", f"dims:{'default' if list(f.mesh.region.dims) == ['x', 'y'] else 'custom'}",
+                    f"bc:{'periodic' if f.mesh.bc else 'open'}", f"bl_exceptional:{obs['bl_exceptional']}"]
+    # ---- uniform -> zero (to rounding: the one-sided edge stencil -3c+4c-c is not exact in binary64)
     if case["tex"] == "uniform":
         for meth, q in res.items():
-            if np.any(q.array != 0) or obs[meth + ":charge"] != (0.0, 0.0):
+            ch, cha = obs[meth + ":charge"]
+            if np.any(np.abs(q.array) > 1e-12 * scale) or abs(ch) > 1e-12 * q.array.size or abs(cha) > 1e-12 * q.array.size:
                 fail(f"{meth}: uniform field {f.array.reshape(-1, 3)[0].tolist()} has non-zero density (max {np.abs(q.array).max()}) or charge {obs[meth + ':charge']}")
     # ---- invariances on the real code
     Qm = rat_rotation(rng)
@@ -350,8 +380,9 @@ def run_tcd(case, rng, obs, fail):
         variants["rotated"] = with_array(f, f.array @ Qm.T)
         variants["rescaled"] = with_array(f, f.array * sfac)
     r = f.mesh.region
-    mesh_t = df.Mesh(region=df.Region(p1=[a + t for a, t in zip(r.pmin, tr)], p2=[a + t for a, t in zip(r.pmax, tr)], dims=r.dims), n=n)
-    mesh_s = df.Mesh(region=df.Region(p1=[a * lam for a in r.pmin], p2=[a * lam for a in r.pmax], dims=r.dims), n=n)
+    mesh_t = df.Mesh(region=df.Region(p1=[a + t for a, t in zip(r.pmin, tr)], p2=[a + t for a, t in zip(r.pmax, tr)], dims=r.dims), n=n,
+                     bc=f.mesh.bc)
+    mesh_s = df.Mesh(region=df.Region(p1=[a * lam for a in r.pmin], p2=[a * lam for a in r.pmax], dims=r.dims), n=n, bc=f.mesh.bc)
     variants["translated"] = with_array(f, f.array, mesh=mesh_t)
     variants["scaled"] = with_array(f, f.array, mesh=mesh_s)
     if case.get("via_sel"):
@@ -444,7 +475,7 @@ def run_emergent(case, rng, obs, fail):
     obs["tags"] += [f"tex:{case['tex']}", f"masked:{not bool(mask.all())}"]
     if not (F0.mesh == mesh and F0.nvdim == 3 and np.array_equal(F0.valid, mask)):
         fail("emergent field is not a 3-component field on the same mesh with the same validity")
-    if case["tex"] == "uniform" and np.any(F0.array != 0):
+    if case["tex"] == "uniform" and np.any(np.abs(F0.array) > 1e-12 * scale):
         fail("emergent field of a uniform field is not zero")
     if case["tex"] != "uniform":
         Qm = rat_rotation(rng)
@@ -824,6 +855,8 @@ def compare(case, obs, rs):
         ch, cha = obs["continuous:charge"]
         if not near(ch, float(F(rc["charge"])), cs) or not near(cha, float(F(rc["abs_charge"])), cs):
             dis.append(f"continuous charge impl {ch}/{cha} vs model {float(F(rc['charge']))}/{float(F(rc['abs_charge']))}")
+        if obs.get("bl_exceptional"):
+            return dis
         mb = bl_from_cells(rb["ok"])
         cmp_mesh("tcd BL mesh", qb.mesh, rb["ok"]["mesh"], dis)
         if [bool(v) for v in qb.valid.reshape(-1)] != rb["ok"]["valid"]:
